@@ -19,13 +19,13 @@ func init() { props["C04"] = runC04 }
 var c04Pool = map[string][]string{
 	"num": {"0", "-(0)", "1", "-(1)", "2", "0.5", "-(2.5)", "3.5", "1e-9", "1.0000000001e-9", "0.9999999999e-9", "0.1 + 0.2", "0.3", "9007199254740992", "9007199254740993",
 		"9223372036854775807", "9223372036854775808", "-(9223372036854775808)", "1e19", "1e308 * 10", "-(1e308 * 10)", "0 / 0", "1e-320", "4294967296", "255", "0x1f", "0b101", "0o17", "1.5e3", "2.5e-3"},
-	"str":  {`""`, `"a"`, `"héllo"`, "`raw\\n`", `"tab\there"`, `"aé世"`, `"ab"`, `"A"`, `"10"`, `"9"`},
-	"bool": {"true", "false"},
-	"time": {"t0", "t1", "'2020-01-02 03:04:05'", "'1970-01-01 00:00:00'", "strtotime(\"2001-09-09 01:46:40\")"},
-	"list": {"[]", "[1]", "[1, 2, 2, 1, 3]", "xs", "es", "[3, 1, 2]", "[0.1 + 0.2, 0.3]", "[1e19, 2e19, 1e19]", "ss", "[\"a\", \"b\", \"a\"]", "[o, o2, o]", "[[1], [1], []]"},
-	"map":  {"[:]", "m", "em", "mn", "[\"a\": 1, \"a\": 2]", "[1: \"x\", 1.0: \"y\", 2: \"z\"]", "[true: 1, false: 2]"},
+	"str":   {`""`, `"a"`, `"héllo"`, "`raw\\n`", `"tab\there"`, `"aé世"`, `"ab"`, `"A"`, `"10"`, `"9"`},
+	"bool":  {"true", "false"},
+	"time":  {"t0", "t1", "'2020-01-02 03:04:05'", "'1970-01-01 00:00:00'", "strtotime(\"2001-09-09 01:46:40\")"},
+	"list":  {"[]", "[1]", "[1, 2, 2, 1, 3]", "xs", "es", "[3, 1, 2]", "[0.1 + 0.2, 0.3]", "[1e19, 2e19, 1e19]", "ss", "[\"a\", \"b\", \"a\"]", "[o, o2, o]", "[[1], [1], []]", "[4, 2]", "[1, 2, 3, 4]", "[3, 3, 3, 1, 1]", "[\"c\", \"a\"]", "[\"a\", \"b\", \"c\"]"},
+	"map":   {"[:]", "m", "em", "mn", "[\"a\": 1, \"a\": 2]", "[1: \"x\", 1.0: \"y\", 2: \"z\"]", "[true: 1, false: 2]"},
 	"maybe": {"mb", "mz", "nest.mb", "lm[0]", "lm[1]"},
-	"var":  {"1", `"s"`, "true", "xs", "o", "mb", "[]", "t0"},
+	"var":   {"1", `"s"`, "true", "xs", "o", "mb", "[]", "t0"},
 }
 
 func runC04(r *Run) {
@@ -89,6 +89,83 @@ func runC04(r *Run) {
 			}
 		}
 		rec(0, nil)
+	}
+	// set operations on lists of small integers with duplicates, different sizes and orders: the result is the
+	// order-preserving de-duplication the documentation defines (reference computed here), on every back end
+	{
+		ns := 250
+		if r.Tier == "thorough" {
+			ns = 20000
+		}
+		lit := func(xs []int) string {
+			ss := make([]string, len(xs))
+			for i, x := range xs {
+				ss[i] = fmt.Sprint(x)
+			}
+			return "[" + strings.Join(ss, ", ") + "]"
+		}
+		dedup := func(xs []int) []int {
+			seen := map[int]bool{}
+			out := []int{}
+			for _, x := range xs {
+				if !seen[x] {
+					seen[x] = true
+					out = append(out, x)
+				}
+			}
+			return out
+		}
+		has := func(xs []int, v int) bool {
+			for _, x := range xs {
+				if x == v {
+					return true
+				}
+			}
+			return false
+		}
+		for i := 0; i < ns; i++ {
+			mk := func() []int {
+				k := r.Rng.Intn(7)
+				xs := make([]int, k)
+				for j := range xs {
+					xs[j] = r.Rng.Intn(6)
+				}
+				return xs
+			}
+			a, b := mk(), mk()
+			var fa, fb []int
+			for _, x := range a {
+				if has(b, x) {
+					fa = append(fa, x)
+				} else {
+					fb = append(fb, x)
+				}
+			}
+			want := map[string][]int{"union": dedup(append(append([]int{}, a...), b...)), "intersect": dedup(fa), "diff": dedup(fb)}
+			for _, op := range []string{"union", "intersect", "diff"} {
+				src := fmt.Sprintf("%s(%s, %s)", op, lit(a), lit(b))
+				if len(a) == 0 && len(b) == 0 {
+					continue
+				}
+				outs, acc := judgeBackendsQuiet(evalCase{src, false}, vars)
+				r.Count("set-op programs")
+				if !acc {
+					continue
+				}
+				for bi, o := range outs {
+					if o.cls != "value" {
+						continue
+					}
+					got := []int{}
+					for _, e := range o.v.List().V {
+						got = append(got, int(e.Num().V))
+					}
+					if fmt.Sprint(got) != fmt.Sprint(want[op]) {
+						r.Violate("set-operation-result", fmt.Sprintf("%q on %s", src, backends[bi]), fmt.Sprintf("got %v, the order-preserving de-duplicating %s is %v", got, op, want[op]))
+					}
+				}
+			}
+		}
 	}
 	for _, s := range []string{`1e-9 == 0`, `0.1 + 0.2 == 0.3`, `len("héllo")`, `union([1, 2, 2], [2, 3])`, `get(xs, 1, 0)`, `string([1.5, 1e19])`, `0x1f + 0b101 + 0o17`, `2 ^ 0.5`, `round(-(2.5))`, `t0 - t1`} {
 		r.Sample(s)
